@@ -129,6 +129,19 @@ def run(ctx):
             for t in body:
                 etree.SubElement(d, "{%s}%s" % (xsdgen.TNS, t)).text = "v"
             check_doc(ctx, res, case, d, case.model_type(3), "group-family", pending, compare_calls=True)
+    # 2b. repeating particles that can match empty, followed by what they cannot consume
+    for name, src in xsdgen.optional_only_schemas():
+        try:
+            case = enginea.Case(0, "optional-only:" + name, src=src)
+        except etree.XMLSchemaParseError:
+            res.count("schema-rejected-by-libxml2")
+            continue
+        res.programs += 1
+        for body in ([], ["tail"], ["a", "b", "tail"], ["zzz"], ["a", "zzz", "a"], ["b", "a", "tail"], ["a", "a", "b", "tail"], ["a", "b"] * 5 + ["zzz"], ["tail", "a"]):
+            d = etree.Element("{%s}root" % xsdgen.TNS)
+            for t in body:
+                etree.SubElement(d, "{%s}%s" % (xsdgen.TNS, t)).text = "v"
+            check_doc(ctx, res, case, d, case.model_type(3), "optional-only", pending, compare_calls=True)
     # 3. nested choices: depth up to 14, documents picking the innermost / middle / outermost branch
     for depth in (3, 8, 14):
         for rep in (False, True):
@@ -156,7 +169,8 @@ def run(ctx):
                 res.disagreements.append(dict(relation="decode outcome", case=c, model=mout, impl=r["outcome"]))
     res.sample(dict(family="group", schema=xsdgen.print_schema(xsdgen.group_schema(0, None))[:500], document="<root><a/><b/><zzz/></root>"))
     res.rule = ("generated core and WIDE schemas (groups with any bounds, wildcards) x valid documents and mutations (insert / delete / duplicate / "
-                "reorder / soup of copied elements); the xsd:group family (unbounded, 10^8, bounded) x documents with a foreign tail; choices nested "
+                "reorder / soup of copied elements); repeating sequences / choices whose content can match empty (unbounded, 10^8, 3) x documents with "
+                "foreign or reordered leftovers; the xsd:group family (unbounded, 10^8, bounded) x documents with a foreign tail; choices nested "
                 "3 / 8 / 14 deep with and without repetition; every document in both modes, work counted in interpreter call events against a budget "
                 "and in decode calls against the model. distinct = distinct (schema, document, mode)")
     return res
